@@ -179,4 +179,13 @@ def run(ctx, report):
     from rules import c01
     # "the resulting key's public key ... a record signed with it verifies": which entry CombinedKey reads back
     c01.pubkey_rule(ctx, Only(report, {"PUBKEY": "PUBKEY"}, keys=lambda r, k: k.startswith("enr_to_public/combined")))
+    if "k256" in ctx.facts.features and "ed25519" in ctx.facts.features:
+        # "records signed with the imported key verify under that public key": build() keys, then signs the content it stores;
+        # the uncompressed form of the (k256) public key is the independent derivation's x||y
+        from rules import c05, c10
+        c05._own_run(ctx, Only(report, {"BUILD": "KEYED-BUILD", "SIGN": "SIGN"}))
+        c10._own_run(ctx, Only(report, {"UNCOMP": "UNCOMP"}, keys=lambda r, k: k.endswith("/k256") or k.endswith("/combined")))
+    # the outcome of a call is decided by its arguments: no static carries state from one call to the next
+    from rules.purity import hidden_state
+    hidden_state(ctx, report)
 
